@@ -357,8 +357,10 @@ def _traced(base):
 def _build_traced():
     import py_stringmatching as sm
     out = {}
-    for base in (sm.WhitespaceTokenizer, sm.DelimiterTokenizer, sm.QgramTokenizer,
-                 sm.AlphabeticTokenizer, sm.AlphanumericTokenizer):
+    from rv import tables as _tables
+    user = [_tables.user_tokenizer_class(n) for n in ('lower', 'strip', 'qlower', 'memo')]
+    for base in [sm.WhitespaceTokenizer, sm.DelimiterTokenizer, sm.QgramTokenizer,
+                 sm.AlphabeticTokenizer, sm.AlphanumericTokenizer] + user:
         cls = _traced(base)
         out[base] = cls
         globals()[cls.__name__] = cls      # importable by name -> picklable for loky workers
